@@ -148,6 +148,23 @@ fn replay_files(dir: &Path, compression: bool, hist: &[Op]) -> Outcome {
     let mut last_read: Option<u64> = None;
     fsync_watch::enable();
     fsync_watch::forget(dir);
+    // the observation must work before anything is concluded from its silence: a probe file is
+    // written and synced through std, and the registry has to show it
+    {
+        static PROBED: std::sync::OnceLock<bool> = std::sync::OnceLock::new();
+        let ok = *PROBED.get_or_init(|| {
+            use std::io::Write;
+            let _ = std::fs::create_dir_all(dir);
+            let probe = dir.join("fsync-probe");
+            let seen = std::fs::File::create(&probe).and_then(|mut f| f.write_all(b"probe").and_then(|_| f.sync_all())).is_ok() && fsync_watch::synced_under(dir).get("fsync-probe") == Some(&5);
+            let _ = std::fs::remove_file(&probe);
+            fsync_watch::forget(dir);
+            seen
+        });
+        if !ok {
+            problem.get_or_insert(("machinery/fsync-not-observed".into(), "the executable's fsync interposer does not see std's File::sync_all: durability of left-behind files cannot be observed".into()));
+        }
+    }
     // sizes of all files at the last sync point (sync / truncate / reopen), as before; observed
     // fsyncs since then raise them
     let mut at_mark: Disk = read_disk(dir);
@@ -465,11 +482,15 @@ fn explore_one(ctx: &Ctx, compression: bool, hist: Vec<Op>) -> Expanded {
     report.traces += 1;
     let state_fp = fp(&(&o.disk, &o.mark, compression, o.pending_read, &o.mem));
     if let Some((kind, msg)) = &o.problem {
-        report.violation(
-            format!("files/{kind}"),
-            msg.clone(),
-            json!({"family": "files", "compression": compression, "history": hist}),
-        );
+        if kind.starts_with("machinery/") {
+            report.machinery_errors.push(msg.clone());
+        } else {
+            report.violation(
+                format!("files/{kind}"),
+                msg.clone(),
+                json!({"family": "files", "compression": compression, "history": hist}),
+            );
+        }
     }
     Expanded { hist, state_fp, n_items: o.reference.len(), report }
 }
